@@ -23,6 +23,7 @@ import (
 	"net"
 	"os"
 	"sync"
+	"sync/atomic"
 	"testing"
 	"testing/synctest"
 	"time"
@@ -511,9 +512,33 @@ func TestVerifLifecycle(t *testing.T) {
 	w := bufio.NewWriter(out)
 	sc := bufio.NewScanner(f)
 	sc.Buffer(make([]byte, 1<<20), 1<<24)
+	// Watchdog in REAL time (started outside any bubble): a goroutine that waits for a mutex held by a goroutine
+	// that will never run again is not "durably blocked" for synctest - virtual time stops and the process would sit
+	// there until the test timeout.  No schedule takes more than a few real milliseconds; without progress for
+	// 45 real seconds the process reports the schedule and exits.
+	var progress atomic.Int64
+	hang := 45 * time.Second
+	if v := os.Getenv("VERIF_HANG_S"); v != "" {
+		var n int
+		fmt.Sscanf(v, "%d", &n)
+		hang = time.Duration(n) * time.Second
+	}
+	go func() {
+		last, since := int64(-1), time.Now()
+		for {
+			time.Sleep(time.Second)
+			if p := progress.Load(); p != last {
+				last, since = p, time.Now()
+			} else if time.Since(since) > hang {
+				fmt.Fprintf(os.Stderr, "verif: hang: no progress for %v of real time\n", hang)
+				os.Exit(3)
+			}
+		}
+	}()
 	idx := 0
 	for sc.Scan() {
 		idx++
+		progress.Add(1)
 		if (idx-1)%nshard != shard || idx <= skipTo {
 			continue
 		}
